@@ -62,6 +62,7 @@ type sgConn struct {
 	markID uint32
 	wire   int64 // events of the signal (object 1) that have arrived on the connection, subscribed to or not
 	others []uint64 // registrations for another signal made on this connection (sg.other), oldest first
+	raws   []uint64 // registrations for the signal itself made by hand on this connection (sg.rawreg), oldest first
 }
 
 type sgSub struct {
@@ -313,6 +314,27 @@ func execSg(op string) func(a []string) string {
 				return "error:" + err.Error()
 			}
 			w.conns[n(0)].others = append(w.conns[n(0)].others, sgOtherUID)
+			return "ok"
+		case "rawreg":
+			// one more registration for the signal itself on this connection, under a user id of its own (a client that
+			// keeps one link per subscriber, as libqi does): the connection gets one event per registration
+			sgOtherUID++
+			if _, err := bus.MakeObject(w.conns[n(0)].proxy).RegisterEvent(1, 102, sgOtherUID); err != nil {
+				return "error:" + err.Error()
+			}
+			w.conns[n(0)].raws = append(w.conns[n(0)].raws, sgOtherUID)
+			return "ok"
+		case "rawunreg":
+			// the newest of them is given up: the earlier ones stay
+			c := w.conns[n(0)]
+			if len(c.raws) == 0 {
+				return "bad-op"
+			}
+			uid := c.raws[len(c.raws)-1]
+			c.raws = c.raws[:len(c.raws)-1]
+			if err := bus.MakeObject(c.proxy).UnregisterEvent(1, 102, uid); err != nil {
+				return "error:" + err.Error()
+			}
 			return "ok"
 		case "unother":
 			// the oldest registration for the other signal made on this connection is given up: the
@@ -821,7 +843,7 @@ func init() {
 		}
 		return r
 	}
-	for _, op := range []string{"other", "unother", "wire", "subfail", "observe", "oterm", "holdunreg", "reset", "conn", "hold", "release", "sub", "cancel", "emit", "call", "got", "osub", "ocancel", "oemit", "ogot"} {
+	for _, op := range []string{"rawreg", "rawunreg", "other", "unother", "wire", "subfail", "observe", "oterm", "holdunreg", "reset", "conn", "hold", "release", "sub", "cancel", "emit", "call", "got", "osub", "ocancel", "oemit", "ogot"} {
 		executors["sg."+op] = execSg(op)
 	}
 	executors["sg.burstcancel"] = func(a []string) string {
@@ -1064,6 +1086,17 @@ func runC13(r *Rand, tier string, o *Out) {
 		o.Do("P", l, true)
 	}
 	emitN += 2
+	// several registrations for the signal on one connection, made by hand (that connection has no subscriber of the
+	// proxy's): one event per registration and emission; giving up the newest leaves the others
+	for _, l := range []string{
+		"sg.reset", "sg.conn", "sg.conn", "sg.sub 0", "sg.rawreg 1", "sg.rawreg 1", fmt.Sprintf("sg.emit %d", emitN+1), "sg.wire 1", "sg.wire 0",
+		"sg.rawunreg 1", fmt.Sprintf("sg.emit %d", emitN+2), "sg.wire 1", "sg.got 0", "sg.rawreg 1", "sg.rawreg 1", "sg.rawunreg 1",
+		fmt.Sprintf("sg.emit %d", emitN+3), "sg.wire 1", "sg.rawunreg 1", "sg.rawunreg 1", fmt.Sprintf("sg.emit %d", emitN+4), "sg.wire 1", "sg.wire 0", "sg.got 0",
+	} {
+		o.Do("P", l, true)
+	}
+	emitN += 4
+	o.Count("scenario:several-registrations-on-one-connection")
 	// an unregistration acknowledged while an emission is between its copy of the users and its writes
 	if out := o.Do("P", "sg.emitrace", true); sgLastRace == "late=1" {
 		o.Fail("an event is sent after the acknowledgement of the removal: the emission had copied the users before", "sg.emitrace => late=1")
